@@ -15,7 +15,8 @@ DECIDED = [
     "JOIN-LIST: per wrapper - iterator advanced before the wrapper is destroyed, detach state set joinable before the join, join -> clean-up -> destroy -> count decrement, nothing touched after destroy",
     "THREAD-FN: the user function is invoked exactly once with the stored argument; the at-exit chain is read from the thread-local copy after the function returned, each node's fields are read before its release and its callback invoked once; the wrapper is not used after destroy; hand-over for lazy join happens last",
     "ATEXIT-LIFO: registration prepends (new->next = old head; head = new)",
-    "LAUNCH: the count is incremented before pthread_create for managed threads and decremented when creation fails; the wrapper is destroyed on the failure path",
+    "LAUNCH: the count is incremented before pthread_create for managed threads and decremented when creation fails; the wrapper is destroyed on the failure path, and the wrapper's destroy function releases every field the wrapper owns (fields assigned from an allocation in thread.c) before the wrapper itself",
+    "INIT-ONCE (under HANDOFF): aws_thread_initialize_thread_management, which empties the pending-join list, is called only from aws_common_library_init under its not-yet-initialised guard",
 ]
 NOT_DECIDED = ["interleavings (the rules decide the protocol shape, which is schedule independent)", "pthread semantics"]
 ASSUMPTIONS = ["pthread_create/pthread_join semantics", "aws_mutex is non-recursive", "aws_linked_list operations have their documented effect (C09)"]
@@ -27,7 +28,7 @@ def gacc(f, names=GUARDED):
 
 def analyse(ctx, replace=None, only=None):
     R = ctx.R
-    P = ctx.program([TH, SH], "ship", replace=replace)
+    P = ctx.program([TH, SH, "source/common.c"], "ship", replace=replace)
     th = {f.name: f for f in P.functions_in("posix/thread.c")}
     sh = {f.name: f for f in P.functions_in("thread_shared.c")}
     allf = dict(th)
@@ -105,6 +106,7 @@ def analyse(ctx, replace=None, only=None):
     thread_fn(R, th["thread_fn"])
     atexit(R, th["aws_thread_current_at_exit"])
     launch(R, th["aws_thread_launch"])
+    ownership_and_init(R, P, th, allf)
     # wrapper destroy: name destroyed, then the wrapper released, nothing after
     d = th["s_thread_wrapper_destroy"]
     rel = [e for e in d.calls("aws_mem_release") if argstr(d, e.node, 1, addr=False) == "wrapper"]
@@ -452,7 +454,46 @@ def launch(R, f):
             "the count is incremented after pthread_create: a fast thread can decrement first (count underflow / join-all returns early)")
 
 
+def ownership_and_init(R, P, th, allf):
+    # ------------------------------------------------------------ WRAPPER-OWNS: the destroy function releases every owned field
+    d = th["s_thread_wrapper_destroy"]
+    owned = set()
+    ALLOCS = {"aws_string_new_from_cursor", "aws_string_new_from_c_str", "aws_string_new_from_array", "aws_string_new_from_buf", "aws_string_new_from_string", "aws_mem_acquire", "aws_mem_calloc"}
+    for g in th.values():
+        for b in g.blocks.values():
+            for el in b.elems:
+                if el["k"] == "bin" and el["op"] == "=":
+                    l = g.d(el["a"][0])
+                    r = RU.uncast(g, el["a"][1])
+                    if l is not None and l["k"] == "member" and l.get("rec") == "thread_wrapper" and r is not None and r["k"] == "call" and r.get("callee") in ALLOCS:
+                        owned.add(l["f"])
+    R.require("name" in owned, "thread_wrapper: owned fields not found (confirmed: name) - %s" % sorted(owned))
+    relw = [e for e in d.calls("aws_mem_release") if argstr(d, e.node, 1, addr=False) == "wrapper"]
+    R.require(len(relw) == 1, "s_thread_wrapper_destroy: release of the wrapper not found")
+    for fld in sorted(owned):
+        rel = [e for e in d.calls({"aws_string_destroy", "aws_string_destroy_secure", "aws_mem_release"}) if (argstr(d, e.node, len(e.node["a"]) - 1, addr=False) or "").endswith("wrapper->" + fld)]
+        R.check(bool(rel) and relw and all(ev_dominates(d, x, relw[0]) for x in rel[:1]), "LAUNCH", "wrapper-destroy-releases:%s" % fld, "%s()" % d.name, "wrapper->%s is released before the wrapper itself" % fld,
+                "s_thread_wrapper_destroy does not release wrapper->%s, which the wrapper owns (allocated in aws_thread_launch): a launch whose pthread_create fails leaks it" % fld)
+
+    # ------------------------------------------------------------ INIT-ONCE: the bookkeeping is reset only by the first library init
+    cm = {f.name: f for f in P.functions_in("source/common.c")}
+    init = cm.get("aws_common_library_init")
+    if R.require(init is not None, "aws_common_library_init not found (source/common.c not analysed)"):
+        R.fn(init)
+        n_calls = 0
+        for nm, g in sorted(list(cm.items()) + list(allf.items())):
+            for e in g.calls("aws_thread_initialize_thread_management"):
+                n_calls += 1
+                gs = [(g.show(RU.uncast(g, t[0])), t[1], t[2] is None) for t in [RU.cmp_norm(g, c_, p_) for c_, p_, b_ in RU.guards(g, e)] if t]
+                R.check(nm == "aws_common_library_init" and ("s_common_library_initialized", "==", True) in gs, "HANDOFF", "init-once:%s" % nm, where(g, e),
+                        "the pending-join list is (re)initialised only by the first aws_common_library_init",
+                        "aws_thread_initialize_thread_management is called from %s without the `not yet initialised` guard (%s): a repeated library init empties the pending-join list, so a finished managed thread is never joined and join-all waits forever" % (nm, gs))
+        R.require(n_calls == 1, "expected one call of aws_thread_initialize_thread_management, found %d" % n_calls)
+
+
 MUTANTS = [
+    {"name": "wrapper-destroy-forgets-name", "file": TH, "expect": "LAUNCH", "old": "    aws_string_destroy(wrapper->name);\n    aws_mem_release(wrapper->allocator, wrapper);", "new": "    aws_mem_release(wrapper->allocator, wrapper);"},
+    {"name": "thread-management-reset-on-every-init", "file": "source/common.c", "expect": "HANDOFF", "old": "    (void)allocator;\n\n    if (!s_common_library_initialized) {", "new": "    (void)allocator;\n    aws_thread_initialize_thread_management();\n\n    if (!s_common_library_initialized) {"},
     {"name": "tl-wrapper-points-at-heap-copy", "file": TH, "expect": "THREAD-FN", "old": "    tl_wrapper = &wrapper;", "new": "    tl_wrapper = wrapper_ptr;"},
     {"name": "count-read-unlocked", "file": SH, "expect": "LOCK",
      "old": "    aws_mutex_lock(&s_managed_thread_lock);\n    thread_count = s_unjoined_thread_count;\n    aws_mutex_unlock(&s_managed_thread_lock);",
